@@ -5,6 +5,8 @@ import Ldlm.Proofs.CoreMain
 import Ldlm.Proofs.CoreWait
 import Ldlm.Proofs.CorePU
 import Ldlm.Proofs.Threads
+import Ldlm.Proofs.CoreQueue
+import Ldlm.Props.C11
 /-!
 C03 — Blocked Lock calls: no lost wake-up, FIFO service, prompt timeout/cancel.
 
@@ -23,6 +25,12 @@ Interleaved (M1, every schedule, any number of threads):
 * `gave_up_never_granted` — every schedule of threaded calls (M1t): after a call has returned, nothing is
                             attributed to its thread until the thread's next invocation - a waiter that gave up is
                             never granted afterwards.
+* `abandoned_never_granted` — M2, every history and every continuation (requests, expiries, session ends,
+                            collections, restarts): a request that is no longer blocked is never blocked again and
+                            never answered with a grant; `cancel_makes_gone`: a cancelled call is such a request.
+                            (Invariant `Core.QP`: every queued call is a blocked call of that lock's name, queued once.)
+* `disconnect_answers_waiters` — a session end answers every blocked call of the session with an error and
+                            leaves none of them blocked.
 Timed (M2, sequential, virtual time):
 * `wait_deadline`         — a blocked call with wait timeout w issued at time t gets the deadline t + w·10⁹.
 * `wait_not_early`        — every `LockWaitTimeout` answer of an advance belongs to a call blocked before it
@@ -163,6 +171,66 @@ theorem wait_timeout_zero_is_none (s : Core.St M) (sid : Option Sid) (n : Core.S
     Core.step o c s (.lock sid n sz lt none) = Core.step o c s (.lock sid n sz lt (some 0)) := by
   simp [Core.step, srvLock, negOpt]
 
+/-! ### a waiter that gives up is never granted the lock afterwards (M2: every continuation of every history) -/
+
+/-- after any history, a request number that has been issued and is not blocked (the call was answered: it was
+granted earlier, or it gave up - wait time-out, cancel, disconnect - or a restart ended it) is never blocked
+again and no later operation of any continuation answers it with a grant: releases, expiries, session ends
+and collections hand units only to calls that are blocked at that moment (`Core.step_evok`) -/
+theorem abandoned_never_granted (ho : o.Lawful) (ops more : List Op) (q : Nat) (hg : Gone q (Core.run o c ops))
+    (op : Op) (k : Core.Str) (e : Option Err) :
+    Gone q (Core.run o c (ops ++ more)) ∧ Event.done q true k e ∉ (Core.step o c (Core.run o c (ops ++ more)) op).2.events := by
+  have hrun : Core.run o c (ops ++ more) = more.foldl (fun s op => (Core.step o c s op).1) (Core.run o c ops) := by
+    unfold Core.run; rw [List.foldl_append]
+  have hgone : Gone q (Core.run o c (ops ++ more)) := by
+    rw [hrun]
+    have key : ∀ (xs : List Op) (s0 : Core.St M), Gone q s0 → Gone q (xs.foldl (fun s op => (Core.step o c s op).1) s0) := by
+      intro xs
+      induction xs with
+      | nil => intro s0 h0; exact h0
+      | cons x xs ih => intro s0 h0; simp only [List.foldl_cons]; exact ih _ (step_gone h0 x)
+    exact key more _ hg
+  refine ⟨hgone, ?_⟩
+  intro hmem
+  obtain ⟨hu, hq⟩ := run_pq (c := c) ho (ops ++ more)
+  exact hgone.not_granted (step_evok ho hu hq op _ hmem) k e rfl
+
+/-- giving up makes a call gone: after its cancellation nothing with its request number is blocked -/
+theorem cancel_makes_gone (ops : List Op) (p : Pending) (hp : p ∈ (Core.run o c ops).pending) :
+    Gone p.req (Core.step o c (Core.run o c ops) (.cancel p.req)).1 := by
+  have hu := run_pu (o := o) (c := c) ops
+  simp only [Core.step]
+  split
+  · rename_i hnone
+    have := List.find?_eq_none.mp hnone p hp
+    simp at this
+  · rename_i p' hf
+    have hreq : p'.req = p.req := by simpa using List.find?_some hf
+    refine ⟨hu.2 p hp, ?_⟩
+    intro x hx
+    unfold abandon at hx
+    have := (List.mem_filter.mp hx).2
+    simp only [ne_eq, decide_eq_true_eq] at this
+    rw [← hreq]; exact this
+
+/-- **a blocked call returns when its client disconnects**: the session end answers every blocked call of that
+session with an error, and none of them is blocked afterwards (so, by `abandoned_never_granted`, none is ever
+granted) -/
+theorem disconnect_answers_waiters (s : Core.St M) (sid : Sid) (p : Pending) (hp : p ∈ s.pending) (hs : p.sid = sid) :
+    Event.done p.req false p.key (some .canceled) ∈ (Core.step o c s (.disconnect sid)).2.events ∧
+    ∀ x ∈ (Core.step o c s (.disconnect sid)).1.pending, x.req ≠ p.req := by
+  have hin : p ∈ s.pending.filter (fun p => p.sid = sid) := List.mem_filter.mpr ⟨hp, by simp [hs]⟩
+  obtain ⟨h1, h2, _⟩ := Ldlm.Props.C11.abandonAll_pending o (s.pending.filter (fun p => p.sid = sid)) s [] .canceled
+  simp only [Core.step]
+  refine ⟨List.mem_append_left _ (h2 p hin), ?_⟩
+  intro x hx
+  have hx1 := (shr_destroy (o := o) (c := c) _ sid).1.subset hx
+  unfold abandonAll at hx1
+  rw [h1] at hx1
+  have := (List.mem_filter.mp hx1).2
+  have := List.all_eq_true.mp this p hin
+  simpa using this
+
 /-! non-vacuity (timed): s1 holds "a"; s2's Lock with a 3 s wait timeout blocks; an advance of 2.999… s answers
 nothing and leaves it blocked; an advance of 3 s answers LockWaitTimeout and leaves nobody blocked -/
 def cfgW : Cfg := { gcInterval := 0, gcMinIdle := 0, dlt := 600 * sec, noClear := false, hasFile := true,
@@ -176,5 +244,12 @@ example : (step flatOps cfgW stW (.advance 2999999999)).2.events = [] ∧
 example : (step flatOps cfgW stW (.advance 3000000000)).2.events = [.done 1 false [75, 49] (some .waitTimeout)] ∧
           (step flatOps cfgW stW (.advance 3000000000)).1.pending = [] ∧
           (step flatOps cfgW stW (.advance 3000000000)).2.tie = false := by decide
+
+/-! non-vacuity of `abandoned_never_granted`: after the time-out request 1 is gone; the holder's Unlock then
+grants nobody, and request 1 stays gone -/
+def stG : St (List (Core.Str × LockRec)) := (step flatOps cfgW stW (.advance 3000000000)).1
+example : stG.nreq = 2 ∧ stG.pending = [] := by decide
+example : (step flatOps cfgW stG (.unlock (some [115, 49]) [97] [75, 48])).2.ok = true ∧
+          (step flatOps cfgW stG (.unlock (some [115, 49]) [97] [75, 48])).2.events = [] := by decide
 
 end Ldlm.Props.C03
